@@ -19,6 +19,18 @@ fn case(kind: &str, vals: &[u64]) -> Option<(String, String)> {
         "vec_u16" => {
             let v: Vec<u16> = vals.iter().map(|&x| x as u16).collect();
             let want: Vec<u8> = v.iter().flat_map(|x| x.to_ne_bytes()).collect();
+            // the same value in vectors whose capacity exceeds their length (grown by push, shrunk by truncate): same bytes
+            {
+                let mut grown: Vec<u16> = Vec::with_capacity(v.len() + 5);
+                for x in &v { grown.push(*x); }
+                let rg = grown.get_sig();
+                if rg != want { return Some((format!("vector with spare capacity {}: {:?}", grown.capacity() - grown.len(), rg), format!("{:?}", want))); }
+                let mut shrunk: Vec<u16> = v.clone();
+                shrunk.extend_from_slice(&[7, 8, 9, 10, 11]);
+                shrunk.truncate(v.len());
+                let rs = shrunk.get_sig();
+                if rs != want { return Some((format!("vector truncated from a longer one: {:?}", rs), format!("{:?}", want))); }
+            }
             let r = v.get_sig();
             // force allocator traffic so that a dangling / doubly owned buffer shows
             let filler: Vec<Vec<u8>> = (0..8).map(|i| vec![0xAA; want.len().max(1) + (i & 1)]).collect();
@@ -29,6 +41,18 @@ fn case(kind: &str, vals: &[u64]) -> Option<(String, String)> {
         "vec_u32" => {
             let v: Vec<u32> = vals.iter().map(|&x| x as u32).collect();
             let want: Vec<u8> = v.iter().flat_map(|x| x.to_ne_bytes()).collect();
+            // the same value in vectors whose capacity exceeds their length (grown by push, shrunk by truncate): same bytes
+            {
+                let mut grown: Vec<u32> = Vec::with_capacity(v.len() + 5);
+                for x in &v { grown.push(*x); }
+                let rg = grown.get_sig();
+                if rg != want { return Some((format!("vector with spare capacity {}: {:?}", grown.capacity() - grown.len(), rg), format!("{:?}", want))); }
+                let mut shrunk: Vec<u32> = v.clone();
+                shrunk.extend_from_slice(&[7, 8, 9, 10, 11]);
+                shrunk.truncate(v.len());
+                let rs = shrunk.get_sig();
+                if rs != want { return Some((format!("vector truncated from a longer one: {:?}", rs), format!("{:?}", want))); }
+            }
             let r = v.get_sig();
             let filler: Vec<Vec<u8>> = (0..8).map(|i| vec![0xAA; want.len().max(1) + (i & 1)]).collect();
             let same = r == want;
